@@ -433,25 +433,47 @@ def _rows(x, n):
     return x.reshape(n, -1)
 
 
+import contextlib
+
+
+@contextlib.contextmanager
+def _harness_eval(*nets):
+    """The harness' OWN forward passes (quantities the API does not report, e.g. Q-values) are taken in eval mode, so that
+    BatchNorm encoders use their running statistics; what the agent's get_action does with the mode is the library's business
+    and is judged through the values get_action returns."""
+    mods = [m for m in nets if m is not None]
+    was = [m.training for m in mods]
+    for m in mods:
+        m.eval()
+    try:
+        yield
+    finally:
+        for m, w in zip(mods, was):
+            m.train(w)
+
+
 def _outputs_single(agent, algo, obs, n):
     """deterministic per-row quantities {name: float64 array (n, -1)} with exploration off"""
     out = {}
     with torch.no_grad():
         if algo in ("DQN", "DDQN", "CQN"):
             a = agent.get_action(obs, epsilon=0.0)
-            q = agent.actor(agent.preprocess_observation(obs))
+            with _harness_eval(agent.actor):
+                q = agent.actor(agent.preprocess_observation(obs))
             out["greedy_action"] = _rows(a, n)
             out["q_values"] = _rows(q.double().numpy(), n)
         elif algo == "Rainbow":
             a = agent.get_action(obs, training=False)
-            q = agent.actor(agent.preprocess_observation(obs))
+            with _harness_eval(agent.actor):
+                q = agent.actor(agent.preprocess_observation(obs))
             out["greedy_action"] = _rows(a, n)
             out["q_values"] = _rows(q.double().numpy(), n)
         elif algo in ("DDPG", "TD3"):
             a = agent.get_action(obs, training=False)
             critic = agent.critic if algo == "DDPG" else agent.critic_1
             out["action"] = _rows(a, n)
-            qv = critic(agent.preprocess_observation(obs), torch.as_tensor(out["action"], dtype=torch.float32))
+            with _harness_eval(critic):
+                qv = critic(agent.preprocess_observation(obs), torch.as_tensor(out["action"], dtype=torch.float32))
             out["q_value"] = _rows(qv.double().numpy(), n)
         elif algo == "PPO":
             _, _, ent, v = agent.get_action(obs)
@@ -625,7 +647,8 @@ def _maddpg_outputs(agent, obs, ids, n, act_for_q):
         acts = torch.cat([torch.as_tensor(act_for_q[a], dtype=torch.float32).reshape(n, -1) for a in ids], dim=1)
         critics = agent.critics if hasattr(agent, "critics") else agent.critics_1
         for a, c in zip(ids, critics):
-            out[("q_value", a)] = _rows(c(stacked, acts).double().numpy(), n)
+            with _harness_eval(c):
+                out[("q_value", a)] = _rows(c(stacked, acts).double().numpy(), n)
     return out, prep, stacked
 
 
@@ -848,6 +871,8 @@ def agent_strategy(draw, tier):
         spec["act"] = draw(st.sampled_from(["discrete", "multidiscrete", "multibinary", "box"]))
         if spec["act"] == "box":
             spec["actv"] = draw(st.integers(1, 2))
+    if fam in ("image", "dict", "tuple"):
+        spec["bn"] = draw(st.booleans())  # BatchNorm in the image encoder (the library's default image config has it)
     B = draw(st.integers(2, 5))
     return {"spec": spec, "B": B, "row": draw(st.integers(0, 4)), "keep": draw(st.integers(1, 2 ** B - 1)),
             "extra": draw(st.integers(0, 3)), "pseed": draw(st.integers(0, 999)), "oseed": draw(st.integers(0, 9999)),
@@ -865,6 +890,8 @@ def multi_strategy(draw, tier):
         act = "box"
     spec = {"algo": algo, "obs": fam, "obsv": draw(st.integers(0, 2)), "actv": draw(st.integers(0, 2)), "act": act,
             "seed": draw(st.integers(0, 999)), "n_agents": draw(st.sampled_from([2, 3, 3]))}
+    if fam in ("image", "dict", "tuple"):
+        spec["bn"] = draw(st.booleans())
     E = draw(st.integers(1, 4))
     return {"spec": spec, "E": E, "keep": draw(st.integers(1, 2 ** E - 1)), "target": draw(st.integers(0, 2)),
             "pseed": draw(st.integers(0, 999)), "oseed": draw(st.integers(0, 9999)),
